@@ -152,12 +152,18 @@ def rand_rx(rng):
     return d
 
 
+_TWICE = [0]
+
+
 def enc_record(rid, d, legacy):
     """Encode with the real gen_msg, decode the result with the real parse_msg."""
     m = mk_tx(d) if d["cls"] == "tx" else mk_rx(d)
     rec = dict(id=rid, e="enc", cls=d["cls"], m=d, legacy=bool(legacy))
     try:
         raw = m.gen_msg(legacy)
+        if _TWICE[0] % 2:
+            raw = m.gen_msg(legacy)       # encoding leaves the message as it was: the second encoding is the same
+        _TWICE[0] += 1
     except Exception as e:       # a valid message must encode
         rec.update(raw=[], err=type(e).__name__, dec=dict(ok=False))
         return rec, None
